@@ -2,6 +2,7 @@ package props
 
 import (
 	"fmt"
+	"os"
 	"strings"
 	"time"
 
@@ -46,6 +47,12 @@ func (g *Gated) refreshRemote() {
 	for _, call := range c.TakeCalls() {
 		if call.Err != nil {
 			continue
+		}
+		if call.Kind == simconn.KAddLabel || call.Kind == simconn.KRemoveLabel || call.Kind == simconn.KMove {
+			g.E.Tr.Event("remote", call.Kind, call.Mailbox, call.To, fmt.Sprint(call.Msgs))
+			if os.Getenv("VERIF_DEBUG_REMOTE") != "" {
+				fmt.Fprintln(os.Stderr, "REMOTE", call.Kind, call.Mailbox, call.To, call.Msgs, call.Bool)
+			}
 		}
 		switch call.Kind {
 		case simconn.KAddLabel:
@@ -539,6 +546,9 @@ func (g *Gated) Diagnose() {
 	default:
 		return
 	}
+	// the remote calls of the command that showed the violation have not been folded in yet:
+	// they may be the ones that make the history (a re-add, a put-back)
+	g.refreshRemote()
 	e.W.ReleaseAll()
 	g.EndAllIdle()
 	same, checked := true, 0
